@@ -543,6 +543,8 @@ func runC13(ctx *h.Ctx) int {
 		if !r1.OK() {
 			k.Count("both_rejected", 1)
 			k.Count("rejected: "+rejectFamily(r1.ErrString()), 1)
+			// foreseeable: two case values that expand to the same text
+			rejectedValid(k, prog, r1, true, "duplicate switch cases")
 			if rejectFamily(r1.ErrString()) != rejectFamily(r2.ErrString()) {
 				k.Violation("error-differs", fmt.Sprintf("with constants: %q; with values written out: %q", r1.ErrString(), r2.ErrString()), map[string]interface{}{"substituted_source": p2.Src})
 			}
